@@ -1,9 +1,10 @@
 package main
 
-// C40 facts: every `panic(...)` call of package bfe_spdy (non-test files, verif hooks excluded) with its file,
-// enclosing function and the first string literal of its argument ("<expr>" if there is none).  The Lean side
-// (BfeVerif.C40.Proofs.panicTable) must give every site a disposition, so a new or reworded panic site re-opens
-// the obligation (C40_panic_sites_classified).
+// C40 facts: the `panic(...)` calls of package bfe_spdy (non-test files, verif hooks excluded), identified by the first
+// string literal of their argument ("<expr>" if there is none) and counted.  The fact is deliberately independent of
+// WHERE a site lives (file, enclosing function, closure, helper): extracting a helper or moving code between files
+// gives the identical Generated file, while a new, removed or reworded panic site changes it and re-opens the
+// obligation (C40_panic_sites_classified: every message, with its number of sites, has a disposition in panicTable).
 
 import (
 	"fmt"
@@ -29,54 +30,92 @@ func init() {
 			}
 		}
 		sort.Strings(files)
-		type site struct{ file, fn, msg string }
+		type site struct{ msg string }
 		var sites []site
+		var parsed []*ast.File
+		consts := map[string]string{} // package-level string constants (a message may have been given a name)
 		for _, fn := range files {
 			_, f, err := parseFile(repo, "bfe_spdy/"+fn)
 			if err != nil {
 				return "", err
 			}
+			parsed = append(parsed, f)
 			for _, d := range f.Decls {
-				fd, ok := d.(*ast.FuncDecl)
-				if !ok || fd.Body == nil {
+				gd, ok := d.(*ast.GenDecl)
+				if !ok || (gd.Tok != token.CONST && gd.Tok != token.VAR) {
 					continue
 				}
-				ast.Inspect(fd.Body, func(n ast.Node) bool {
-					ce, ok := n.(*ast.CallExpr)
+				for _, sp := range gd.Specs {
+					vs, ok := sp.(*ast.ValueSpec)
 					if !ok {
-						return true
+						continue
 					}
-					id, ok := ce.Fun.(*ast.Ident)
-					if !ok || id.Name != "panic" || len(ce.Args) != 1 {
-						return true
+					for i, n := range vs.Names {
+						if i < len(vs.Values) {
+							if v, ok := strLit(vs.Values[i]); ok {
+								consts[n.Name] = v
+							}
+						}
 					}
-					msg := "<expr>"
-					ast.Inspect(ce.Args[0], func(m ast.Node) bool {
-						if bl, ok := m.(*ast.BasicLit); ok && bl.Kind == token.STRING && msg == "<expr>" {
-							if s, ok := strLit(bl); ok {
+				}
+			}
+		}
+		for _, f := range parsed {
+			// the whole file: function bodies, closures, package-level function literals
+			ast.Inspect(f, func(n ast.Node) bool {
+				ce, ok := n.(*ast.CallExpr)
+				if !ok {
+					return true
+				}
+				id, ok := ce.Fun.(*ast.Ident)
+				if !ok || id.Name != "panic" || len(ce.Args) != 1 {
+					return true
+				}
+				msg := "<expr>"
+				ast.Inspect(ce.Args[0], func(m ast.Node) bool {
+					if msg != "<expr>" {
+						return false
+					}
+					switch v := m.(type) {
+					case *ast.BasicLit:
+						if v.Kind == token.STRING {
+							if s, ok := strLit(v); ok {
 								msg = s
 							}
 						}
-						return true
-					})
-					sites = append(sites, site{fn, fd.Name.Name, msg})
+					case *ast.Ident:
+						if s, ok := consts[v.Name]; ok {
+							msg = s
+						}
+					}
 					return true
 				})
-			}
+				sites = append(sites, site{msg})
+				return true
+			})
 		}
 		if len(sites) < 10 {
 			return "", fmt.Errorf("only %d panic sites found in bfe_spdy: shape changed", len(sites))
 		}
+		count := map[string]int{}
+		for _, st := range sites {
+			count[st.msg]++
+		}
+		msgs := make([]string, 0, len(count))
+		for m := range count {
+			msgs = append(msgs, m)
+		}
+		sort.Strings(msgs)
 		var b strings.Builder
 		b.WriteString(header("C40", "bfe_spdy/*.go"))
-		b.WriteString("/-- (file, enclosing function, first string literal of the argument) of every `panic(...)` in package bfe_spdy -/\n")
-		b.WriteString("def panicSites : List (String × String × String) := [\n")
-		for i, s := range sites {
+		b.WriteString("/-- (first string literal of the argument, number of sites) of the `panic(...)` calls in package bfe_spdy, sorted -/\n")
+		b.WriteString("def panicSites : List (String × Nat) := [\n")
+		for i, m := range msgs {
 			sep := ","
-			if i == len(sites)-1 {
+			if i == len(msgs)-1 {
 				sep = ""
 			}
-			fmt.Fprintf(&b, "  (%s, %s, %s)%s\n", leanStr(s.file), leanStr(s.fn), leanStr(s.msg), sep)
+			fmt.Fprintf(&b, "  (%s, %d)%s\n", leanStr(m), count[m], sep)
 		}
 		b.WriteString("]\n")
 		b.WriteString(footer("C40"))
